@@ -3,22 +3,34 @@
 // plain matrix products / LU inverse.
 #include "harness.hpp"
 
-template <class G> struct HasTransform { static constexpr bool value = !vf::Info<G>::is_bundle; };
+#ifdef VF_FN_ALL
+#define ON(k) 1
+#else
+#define ON(k) (VF_FN == (k))
+#endif
 
-template <class G, bool B = HasTransform<G>::value> struct TransformCheck {
-  static void run(const G&, const ref::Mat&, vf::Report&, const std::string&, const std::string&) {}
-};
-template <class G> struct TransformCheck<G, true> {
+template <class G> struct TransformCheck {
   static void run(const G& X, const ref::Mat& Mx, vf::Report& R, const std::string& key, const std::string& detail) {
+#if ON(2)
     typedef vf::Bars<typename G::Scalar> B;
     const ref::Group& g = vf::RG<G>();
     ref::Mat T = vf::toLM(X.transform());
-    // documented homogeneous matrix: the group matrix, padded with a trailing 1 for pure rotations
-    ref::Mat E = Mx;
-    if (T.rows() == g.N + 1) { E = ref::Mat::Identity(g.N + 1, g.N + 1); E.topLeftCorner(g.N, g.N) = Mx; }
-    ref::Real d = (T.rows() == E.rows()) ? (T - E).cwiseAbs().maxCoeff() / g.lin_scale_M(Mx) : 1;
+    // documented homogeneous matrix: block diagonal of the elements' matrices, a pure rotation being padded with a trailing 1
+    int n = 0;
+    for (size_t b = 0; b < g.blocks.size(); ++b) n += g.blocks[b].N + ((g.blocks[b].kind == ref::SO2 || g.blocks[b].kind == ref::SO3) ? 1 : 0);
+    ref::Mat E = ref::Mat::Zero(n, n);
+    int o = 0;
+    for (size_t b = 0; b < g.blocks.size(); ++b) {
+      int m = g.blocks[b].N;
+      E.block(o, o, m, m) = Mx.block(g.offN[b], g.offN[b], m, m);
+      if (g.blocks[b].kind == ref::SO2 || g.blocks[b].kind == ref::SO3) { E(o + m, o + m) = 1; ++m; }
+      o += m;
+    }
+    ref::Real d = (T.rows() == E.rows() && T.cols() == E.cols()) ? (T - E).cwiseAbs().maxCoeff() / g.lin_scale_M(Mx) : 1;
     if (!(d == d)) d = INFINITY;
-    if (!R.judge("transform_is_embedding", d, B::B1, key)) R.fail("transform_is_embedding", "transform/" + key, d, B::B1, detail + "}");
+    if (!R.judge("transform_is_embedding", d, B::B1, key))
+      R.fail("transform_is_embedding", "transform/" + key, d, B::B1, detail + "," + vf::kv("transform", vf::decmat(T)) + "," + vf::kv("documented", vf::decmat(E)) + "}");
+#endif
   }
 };
 
